@@ -93,7 +93,10 @@ def parse_nvra(nvra):
     """
     if nvra.endswith(".rpm"):
         nvra = nvra[:-4]
-    result = RPM_NVRA_RE.match(nvra).groupdict()
+    match = RPM_NVRA_RE.match(nvra)
+    if match is None:
+        raise ValueError("Invalid N-E:V-R.A: %s" % nvra)
+    result = match.groupdict()
     result["epoch"] = result["epoch"] or 0
     result["epoch"] = int(result["epoch"])
     return result
